@@ -395,3 +395,27 @@ Proof.
   pose proof (s_run_inv cas (ops ++ repeat SSvcStack (S n)) ca) as I. fold s' in I.
   rewrite G, E in I. cbn in I. rewrite app_nil_r in I. exact I.
 Qed.
+
+(* the client stack never leaves received bytes unparsed at the end of a receive pass *)
+Lemma c_rx_empties orc : forall cur got pk pk' b cu rest,
+  (got = false -> cur = []) -> c_rx orc cur got pk = (pk', b, cu, rest) -> b = [].
+Proof.
+  induction orc as [|r o IH]; intros cur got pk pk' b cu rest Hc H; cbn in H.
+  - destruct got; inversion H; subst; auto.
+  - destruct r as [d| |].
+    + eapply IH; [|exact H]. discriminate.
+    + destruct got; [eapply IH; [|exact H]; auto | inversion H; subst; auto].
+    + destruct got; inversion H; subst; auto.
+Qed.
+
+Lemma crx_run_all_delivered orcs : rxbuf (crx_run orcs) = [] /\ concat (rxpk (crx_run orcs)) = rxgot (crx_run orcs).
+Proof.
+  assert (G : rxbuf (crx_run orcs) = []).
+  { unfold crx_run. assert (H0 : rxbuf crx_init = []) by reflexivity.
+    revert H0. generalize crx_init. induction orcs as [|o os IH]; intros s H; [exact H|].
+    cbn. apply IH. unfold crx_service. destruct (rxcut s); [exact H|].
+    destruct (c_rx o (rxbuf s) false []) as [[[pk b] cu] rest] eqn:E. cbn.
+    eapply c_rx_empties; [|exact E]. intros _. exact H. }
+  split; [exact G|]. pose proof (crx_run_inv orcs) as I. unfold crx_inv in I.
+  rewrite G, app_nil_r in I. exact I.
+Qed.
